@@ -260,6 +260,7 @@ class Interp:
         self.writes = None  # write log (set of ids) when tracking heap writes
         self.path_notes = []
         self.abstract_returns = []
+        self.path_ambient = []  # process-global sources of nondeterminism read on this path
         for ax in getattr(self, "axioms", []):
             self.solver.add(ax)
 
